@@ -12,7 +12,7 @@
    Quirk of the code kept on purpose (see Properties_C09.v):
      Q4  an any-ancestor step takes the nearest ancestor that satisfies it and never backtracks, and
          FROM_ROOT followed by an any-ancestor step just walks up to the root (K14, K15).
-   Repaired in /repo and modelled as repaired (commits 705d3a6, cb2fe18, 335a1a5): a child-axis step
+   Repaired in /repo and modelled as repaired (commits f650494, cb2fe18, 335a1a5): a child-axis step
    never accepts the document node; an attribute step only accepts attribute nodes; the forward re-run
    of an attribute step tests attributes by attribute name. *)
 From Coq Require Import List Bool Arith.
